@@ -52,14 +52,14 @@ CHECKS['C02'] = dict(
     title='Evaluation returns the value of the stored piecewise polynomial',
     level='exploration',
     technique='bounded-exhaustive enumeration of (grid, window, order, coefficient pattern, abscissa) on the real evaluation code with an exact rational scalar against explicit-power evaluation',
-    level_text='Every window of 4 grid families up to 5 (thorough 7) points, orders 0..3 (0..4), unit/zero/generic coefficient vectors and a probe set containing every grid point, interior points of every grid interval, points just outside and far outside; exact equality with the midpoint polynomial computed independently; plus supports of 17..66 (thorough ..129) grid points on both sides of powers of two (size-dependent search strategies). Exhaustive within those bounds.',
+    level_text='Every window of 4 grid families up to 5 (thorough 7) points, orders 0..3 (0..4), unit/zero/generic coefficient vectors and a probe set containing every grid point, interior points of every grid interval, points just outside and far outside; exact equality with the midpoint polynomial computed independently; plus supports of 17..66 (thorough ..129) grid points on both sides of powers of two (size-dependent search strategies); and evaluation right after the data of an already evaluated spline was replaced (converting assignment, same-order assignment, +=) for every window pair and every common interval. Exhaustive within those bounds.',
     level_note='Trusted: GMP, the 20-line explicit-power oracle in checks/c02_eval.cpp. x outside the probe set is covered by the degree argument (more than order+1 probes per interval) and by probing both sides of every comparison threshold; NaN abscissae are outside the statement.',
     units=std_units('checks/c02_eval.cpp'),
     rule='cases = (grid family, n, window, order, coefficient pattern); each evaluates the spline at every probe point (counter point_evaluations). Non-trivial = coefficient vector non-zero.',
     bounds=dict(quick='4 grid families x n=2..5 x all windows x orders 0..3 x (all unit vectors, zero, 2 generic)',
                 thorough='n=2..7, orders 0..4'),
     guards=dict(classes=['x:interior', 'x:shared-gridpoint', 'x:front', 'x:back', 'x:left-outside', 'x:right-outside', 'x:interval-free',
-                         'win:interval:sub', 'win:interval:whole', 'win:point:sub', 'win:empty:sub', 'win:large'],
+                         'win:interval:sub', 'win:interval:whole', 'win:point:sub', 'win:empty:sub', 'win:large', 'replaced'],
                 counters=['point_evaluations']),
     assumptions=[A_SHAPE, A_POLY],
 )
@@ -120,12 +120,12 @@ CHECKS['C04'] = dict(
     title='Primitive operators are d^n/dx^n and multiplication by x^n on every interval',
     level='exploration',
     technique='bounded-exhaustive enumeration over the template matrix (operator power x spline order) and over grids, windows and coefficient patterns on the real operators against the exact reference derivative / x^n',
-    level_text='Dx<n> for n = 0..order+2, X<n> for n = 0..6 and the identity on Spline<order>, order 0..3 (0..4), every window of grids far from, around and left of the origin, unit/zero/generic coefficients; the result must denote exactly the reference n-th derivative / x^n times the stored polynomial on every interval, and (I*s)==s.',
+    level_text='Dx<n> for n = 0..order+2, X<n> for n = 0..6 (plus Dx<13>, Dx<14>, Dx<21>, X<18>, X<22>, X<35> on orders up to 22: factorials beyond 2^31 and 2^64) and the identity on Spline<order>, order 0..3 (0..4), every window of grids far from, around and left of the origin, unit/zero/generic coefficients; the result must denote exactly the reference n-th derivative / x^n times the stored polynomial on every interval, and (I*s)==s.',
     level_note='Trusted: GMP, engine/refpp.h (derivative and multiplication by x in the global monomial basis). Template parameters beyond the enumerated matrix are not instantiated.',
     units=std_units('checks/c04_primitive.cpp'),
     rule='cases = (grid, operator instantiation, spline order, window, coefficient pattern). Non-trivial = operand is a non-zero function.',
     bounds=dict(quick='grids far4, neg4; orders 0..3; Dx 0..order+2; X 0..6', thorough='4 families n=5; orders 0..4; X 0..6'),
-    guards=dict(classes=['Dx1:nonzero', 'Dx3:zero-result', 'X2:nonzero', 'X4:nonzero', 'X5:nonzero', 'X6:nonzero', 'I:nonzero', 'Dx0:nonzero', 'X0:nonzero', 'win:point', 'win:empty', 'win:interval']),
+    guards=dict(classes=['high:Dx13', 'high:Dx21', 'high:X18', 'high:X35', 'Dx1:nonzero', 'Dx3:zero-result', 'X2:nonzero', 'X4:nonzero', 'X5:nonzero', 'X6:nonzero', 'I:nonzero', 'Dx0:nonzero', 'X0:nonzero', 'win:point', 'win:empty', 'win:interval']),
     assumptions=[A_SHAPE, A_POLY],
 )
 
@@ -293,7 +293,7 @@ def c09_units(tier):
     add('c12', 'checks/c12_interp.cpp')
     add('c12-eigen', 'checks/c12_interp.cpp', flags=['-DVF_EIGEN'])
     add('c15', 'checks/c15_predicates.cpp')
-    add('c10-pool', 'checks/c10_pool.cpp', shards=1, args=['--prop', 'C10', '--levels', '5' if th else '4', '--levels2', '4'])
+    add('c10-pool', 'checks/c10_pool.cpp', shards=1, args=['--prop', 'C10', '--touch', '1', '--levels', '5' if th else '4', '--levels2', '4'])   # --touch: every object is used after every transition
     add('c17-n2', 'checks/c17_quadrature.cpp', flags=['-DVF_N=2'])
     add('c17-n3-ld', 'checks/c17_quadrature.cpp', flags=['-DVF_N=3', '-DVF_LONG_DOUBLE'])
     for u in c05_units(tier, 'san', 'C09', [('k1', 12), ('fixed', 2)] + ([('uu', 32), ('k2v', 64)] if th else [])):
@@ -338,7 +338,7 @@ CHECKS['C17'] = dict(
     title='Numerical quadrature matches the analytic forms where Gauss-Legendre is exact',
     level='exploration',
     technique='bounded-exhaustive enumeration of (quadrature size, weight degree, order pair, window pair, coefficient pattern) on the real integrate<n> in double and long double; oracle = exact rational integral over the common intervals with a 2^20 eps bound relative to the sum of absolute values of the terms, and exact zero without a common interval',
-    level_text='integrate<n>, n in {1,2,3,4,6} (long double: {2,3,6}; thorough 1..8 for both), weights x^0..x^3 and a generic cubic, 7 (13) order pairs from 0..3, every ordered window pair of two 5-point well-scaled dyadic grids, 3 (4) coefficient patterns, double and long double. Whenever 2n-1 >= order1+order2+d the result is within 2^20 eps mag of the exact integral, as is the analytic BilinearForm with the weight as operator; without a common interval the result is exactly 0. Cases below the exactness bound are executed and counted (the comparison can and does fail there).',
+    level_text='integrate<n>, n in {1,2,3,4,6} (long double: {2,3,6}; thorough 1..8 for both), weights x^0..x^3, a generic cubic and (n >= 4) x^5, x^6, 7 (13) order pairs from 0..3, every ordered window pair of two 5-point well-scaled dyadic grids, 3 (4) coefficient patterns, double and long double. Whenever 2n-1 >= order1+order2+d the result is within 2^20 eps mag of the exact integral, as is the analytic BilinearForm with the weight as operator; without a common interval the result is exactly 0. Cases below the exactness bound are executed and counted (the comparison can and does fail there).',
     level_note='Tolerance-based evidence on an enumerated alphabet (weakest kind in this design): rounding claims cannot be decided exactly. Trusted: GMP, exact conversion of floating results, boost::math::quadrature::gauss as shipped. mag is an upper bound of the sum of absolute quadrature terms computed in rationals.',
     units=lambda tier: [unit('d-n%d' % n, 'checks/c17_quadrature.cpp', 'exact', shards=4, flags=['-DVF_N=%d' % n]) for n in ([1, 2, 3, 4, 6] if tier == 'quick' else range(1, 9))] +
                        [unit('ld-n%d' % n, 'checks/c17_quadrature.cpp', 'exact', shards=4, flags=['-DVF_N=%d' % n, '-DVF_LONG_DOUBLE']) for n in ([2, 3, 6] if tier == 'quick' else range(1, 9))] +
